@@ -50,6 +50,7 @@ PIECES = {
     "device_ok": 'struct A { x @0: u8, }\nservice S @0 { method m(A) @0 returns A, }\ndevice d { services: [S], }\n',
     "device_missing": 'struct A { x @0: u8, }\nservice S @0 { method m(A) @0 returns A, }\ndevice d { services: [S, T], }\n',
     "device_missing_second": 'struct A { x @0: u8, }\nservice S @0 { method m(A) @0 returns A, }\ndevice d { services: [S], }\ndevice e { services: [T], }\n',
+    "device_missing_after_plain": 'struct A { x @0: u8, }\nservice S @0 { method m(A) @0 returns A, }\ndevice a { id: 1, }\ndevice d { services: [T], }\n',
     "dup_can_id": 'struct A { x @0: u8, }\nstruct B { x @0: u8, }\nimpl can for A { id: 10, }\nimpl can for B { id: 10, }\n',
     "same_id_other_proto": 'struct A { x @0: u8, }\nstruct B { x @0: u8, }\nimpl can for A { id: 10, }\nimpl foo for B { id: 10, }\n',
     "unknown_struct": 'struct A { x @0: u8, }\nimpl can for Z { id: 10, }\n',
